@@ -30,6 +30,14 @@ impl RandGen for CryptographicallySecurePRNG {
 /// Generates a random integer with the specified number of bits.
 pub fn random_bits(n: u32) -> Integer {
 
+    #[cfg(feature = "verif_hooks")]
+    if crate::utils::verif_hooks::enter("random_bits") {
+        let v = random_bits(n);
+        crate::utils::verif_hooks::leave("random_bits");
+        let b = crate::utils::verif_hooks::draw("bits", vec![n.to_string()], v.to_string().into_bytes());
+        return Integer::from_str_radix(&String::from_utf8(b).unwrap(), 10).unwrap();
+    }
+
     let mut rng = rand::thread_rng();
     let seed = rng.gen();
     let mut binding = CryptographicallySecurePRNG(ChaCha20Rng::from_seed(seed));
@@ -43,6 +51,14 @@ pub fn random_bits(n: u32) -> Integer {
 /// Generates a random integer less than the specified integer.
 pub fn random_number(n: Integer) -> Integer {
 
+    #[cfg(feature = "verif_hooks")]
+    if crate::utils::verif_hooks::enter("random_number") {
+        let v = random_number(n.clone());
+        crate::utils::verif_hooks::leave("random_number");
+        let b = crate::utils::verif_hooks::draw("number", vec![n.to_string()], v.to_string().into_bytes());
+        return Integer::from_str_radix(&String::from_utf8(b).unwrap(), 10).unwrap();
+    }
+
     let mut rng = rand::thread_rng();
     let seed = rng.gen();
     let mut binding = CryptographicallySecurePRNG(ChaCha20Rng::from_seed(seed));
@@ -54,6 +70,14 @@ pub fn random_number(n: Integer) -> Integer {
 
 /// Generates a random prime number with the specified number of bits.
 pub fn random_prime(n: u32) -> Integer {
+
+    #[cfg(feature = "verif_hooks")]
+    if crate::utils::verif_hooks::enter("random_prime") {
+        let v = random_prime(n);
+        crate::utils::verif_hooks::leave("random_prime");
+        let b = crate::utils::verif_hooks::draw("prime", vec![n.to_string()], v.to_string().into_bytes());
+        return Integer::from_str_radix(&String::from_utf8(b).unwrap(), 10).unwrap();
+    }
     let r = random_bits(n);
     let prime = r.next_prime();
     prime
@@ -74,6 +98,14 @@ pub fn random_qr(n: &Integer) -> Integer {
 
 /// Generates a random integer in the range [a, b].
 pub fn rand_int(a: Integer, b: Integer) -> Integer {
+
+    #[cfg(feature = "verif_hooks")]
+    if crate::utils::verif_hooks::enter("rand_int") {
+        let v = rand_int(a.clone(), b.clone());
+        crate::utils::verif_hooks::leave("rand_int");
+        let b = crate::utils::verif_hooks::draw("int", vec![a.to_string(), b.to_string()], v.to_string().into_bytes());
+        return Integer::from_str_radix(&String::from_utf8(b).unwrap(), 10).unwrap();
+    }
 
     let mut rng = rand::thread_rng();
     let seed = rng.gen();
